@@ -8,11 +8,11 @@ CLAIMED = {
  "C03": ("Bounded model checking: step refinement (one real decode_byte from an arbitrary concrete-shape state over a FULLY SYMBOLIC 2..3 state DFA) and call refinement (one real decode() call) of the real tokenizer to a reference tokenizer; chunk independence and leftmost-longest decided on the reference tokenizer for every small DFA and input.",
          "DFAs <= 3 states x 3 symbols, buffers <= 3 bytes, model inputs <= 5 symbols; production tables are data for the same generic driver. Trusted: reference tokenizer (kani/src/c03.rs)."),
  "C04": ("Bounded model checking: protocol printers render symbolic parameters at concrete digit positions; the production automaton table must accept them with the family's matcher and the real payload decoder must return exactly the transmitted coordinates / modifier mask / button / mode / status / level.",
-         "Partial: cursor, SGR mouse, DECRPM, keyboard-level families with 1-3 digit fields; other families and the static key table outside."),
- "C05": ("Bounded model checking of TTYEncoder::encode per command variant: the emitted bytes are parsed back by a harness-side ECMA-48/xterm reader (CSI/OSC/DCS syntax, reference SGR machine) and compared with the command for all parameter values in the stated ranges, true-colour depth.",
-         "Positions/counts <= 99999, signed moves in +-99999 plus the i32 extremes; EightBit/Gray depths (f32) outside; payload strings <= 3 bytes."),
- "C06": ("Bounded model checking: FaceModify::apply == SGR semantics for every face x record (and two records in sequence); the library's SGR reader == reference SGR machine on every parameter string up to a length; encoder output for every character read back by the command payload decoder.",
-         "SGR strings <= 2 (quick) / 4 (thorough) bytes; TTYCellWriter end-to-end and chunking (C03) outside. Round trip of encoder output follows by composition with C05 within those bounds."),
+         "Partial: cursor, DECRPM, keyboard-level families (1 digit shapes quick, 2-3 digits thorough), SGR mouse shapes thorough only (16 min per shape); every printable Unicode scalar accepted by the event automaton (SMT over the dumped table); in-order rescan after a longest match via two tokenizer step shapes; other families and the static key table outside."),
+ "C05": ("Bounded model checking of TTYEncoder::encode per command variant (cursor, erase, scroll, DEC modes incl. the kitty keyboard level around the alternate screen, keyboard level, colour set/query, XTGETTCAP, title, raw, characters, the ten parameterless commands): the emitted bytes are parsed back by a harness-side ECMA-48/xterm reader and compared with the command for all parameter values in the stated ranges.",
+         "Partial: Face/FaceModify (SGR built through the encoder's own Chunks writer) do not finish within 40 min and are experimental only; positions/counts <= 99999, signed moves in +-99999 plus the i32 extremes; EightBit/Gray depths (f32) outside; payload strings <= 3 bytes."),
+ "C06": ("Bounded model checking: FaceModify::apply == SGR semantics for every face x record (and two records in sequence); sgr_color on the encoder's true-colour parameter groups followed by further parameters (symbolic components at concrete digit widths); encoder output for every character read back by the command payload decoder; SMT over the dumped command automaton: every Unicode scalar except ESC is accepted as a character; 22 fixed SGR parameter strings through the real sgr_face (concrete inputs, auxiliary).",
+         "Partial: sgr_face on symbolic parameter strings does not fit the solver (experimental tier); the Face/FaceModify encoder (Chunks) likewise, so the full encode->decode round trip is argued from the parts; TTYCellWriter end-to-end and chunking (C03) outside."),
  "C07": ("Bounded model checking of the real view/transpose/iter/iter_mut/get/get_mut/fill/clear/fill_with/insert code on concrete base sizes (<= 3x4) with symbolic signed bounds against an index-matrix model; distinctness of iter_mut references via unique markers.",
          "Base surfaces <= 3x4, chains transpose-view-transpose-view, selector forms per instance; hand-built strides outside."),
  "C08": ("Bounded model checking of view_bounds for each of the 10 integer types x 6 selector forms and RangeFull: for every bound value of the type and every axis length n <= 2^32 (thorough: n < 2^62) the result equals an i128 python-slice reference and satisfies 0 <= start < end <= n; type independence follows from the common mathematical reference.",
